@@ -1,0 +1,25 @@
+//go:build verif
+
+package spine
+
+import "sync/atomic"
+
+// Verification hooks (build tag `verif` only): the harness installs a scheduler
+// that parks a goroutine reaching a named yield point until the schedule names it.
+
+var verifYieldFn atomic.Pointer[func(point string)]
+
+// VerifSetYield installs (or, with nil, removes) the yield callback.
+func VerifSetYield(f func(point string)) {
+	if f == nil {
+		verifYieldFn.Store(nil)
+		return
+	}
+	verifYieldFn.Store(&f)
+}
+
+func verifYield(point string) {
+	if f := verifYieldFn.Load(); f != nil {
+		(*f)(point)
+	}
+}
